@@ -118,28 +118,78 @@ def _bclass(n, p, bad):
     return "several"
 
 
+def pad_record(ctx, cases, label):
+    """C43 through the record layer: forged CBC records (correct MAC, chosen padding bytes) per version."""
+    if not cases:
+        raise vlib.MachineryError("no record-layer padding cases (%s)" % label)
+    for i, c in enumerate(cases):
+        c["id"] = i + 1
+        c.setdefault("rseed", ctx.seed * 1000003 + i + 1)
+    res = ctx.harness("tlsrec", ["padding-record"], cases=cases, timeout=3000)
+    summ = _need(res, "padding-record")
+    rows = {r["id"]: r for r in res if "id" in r}
+    mach = [r for r in rows.values() if "machinery" in r]
+    if mach:
+        raise vlib.MachineryError("padding-record could not drive %d cases, e.g. %s" % (len(mach), mach[0]["machinery"]))
+    if summ["cases"] != len(cases) or len(rows) != len(cases):
+        raise vlib.MachineryError("padding-record answered %d of %d cases" % (len(rows), len(cases)))
+    drift = [r for r in rows.values() if r.get("drift")]
+    if drift:
+        ctx.drift("action=Decrypt %d answers differ from the mechanism model, e.g. %s" % (len(drift), drift[0]["drift"]))
+    for c in cases:
+        r = rows[c["id"]]
+        ctx.count(["rec", c["ver"], c["suite"], c["p"], c["bad"]])
+        if not r["ok"]:
+            rc = dict(c)
+            rc.pop("id", None)
+            ctx.report(r["sig"], r.get("detail", ""), case={"kind": "padrec", "case": rc},
+                       harness="tlsrec", cmd="padding-record")
+    ctx.traces(len(cases))
+    c = cases[len(cases) // 2]
+    ctx.sample({"record_layer_case": {k: c[k] for k in ("ver", "suite", "p", "bad", "expP")},
+                "observed": rows[c["id"]].get("obs")})
+
+
+REC_P = "0,1,2,7,8,15,16,17,31,100,254,255"
+
+
 def check_c43(ctx):
     q = ctx.tier == "quick"
-    mcd = {"SMALL": 10 if q else 12, "BIG": BIG_LENS}
-    ctx.cov["constants"]["MC_Padding"] = mcd
-    ctx.tlc_must_pass("Tls", "Padding", "MC_Padding.cfg", defines=mcd, timeout=3000, coverage=False)
     gd = {"SMALL": 9 if q else 12, "BIG": BIG_LENS, "VC": VCS}
     ctx.cov["constants"]["Gen_Padding"] = gd
-    r = ctx.tlc("Tls", "GenPadding", "Gen_Padding.cfg", defines=gd, timeout=3000, count=False)
-    if not r.ok:
-        raise vlib.MachineryError("GenPadding failed: %s %s" % (r.error or r.violation, r.out[-500:]))
+    if not q:
+        mcd = {"SMALL": 12, "BIG": BIG_LENS}
+        ctx.cov["constants"]["MC_Padding"] = mcd
+        ctx.tlc_must_pass("Tls", "Padding", "MC_Padding.cfg", defines=mcd, timeout=3000, coverage=False)
+    # GenPadding checks MechOK (mechanism model satisfies the statement) on every element it prints
+    r = ctx.tlc_must_pass("Tls", "GenPadding", "Gen_Padding.cfg", defines=gd, timeout=3000, count=q)
     ctx.cov["rule"] = ("cases = every element of Padding!Space (complete: all lengths <= MaxSmall x every p in "
                        "0..len+1,254,255 x every subset of positions differing from p; structured: boundary p and "
                        "one corrupted byte at first/middle/last padding byte for lengths up to 300) x value class, "
                        "each run through the real removePadding and removePaddingSSL30 and compared with the "
                        "Layer-P verdict printed by TLC; plus all (length <= 300, p in 0..255) pairs called on the "
-                       "real functions and validated by TracePadding.tla. distinct = distinct (len,p,bad,vc).")
+                       "real functions and validated by TracePadding.tla; plus, through the record layer, forged CBC "
+                       "records with a correct MAC and chosen padding bytes (PaddingRec: version x p x corruption "
+                       "class x CBC suite) fed to the real receiving Conn. distinct = distinct (len,p,bad,vc) / "
+                       "(version,suite,p,class).")
     ctx.cov["exhaustive"] = True
     pad_replay(ctx, r.cases, "C43")
     pad_sweep(ctx, 300)
+    rd = {"RECP": REC_P}
+    ctx.cov["constants"]["Gen_PaddingRec"] = {"RecP": REC_P, "Versions": "ssl30,tls10,tls11,tls12"}
+    rr = ctx.tlc_must_pass("Tls", "GenPaddingRec", "Gen_PaddingRec.cfg", defines=rd, timeout=3000)
+    rcases = []
+    for su in (["002f", "000a", "e019"] if q else ["002f", "000a", "e019", "0035", "c013", "c014", "c012"]):
+        for c in rr.cases:
+            cc = dict(c)
+            cc["suite"] = su
+            rcases.append(cc)
+    pad_record(ctx, rcases, "C43")
     ctx.assumptions.append("bytes are abstracted to 'equals p / differs from p'; the differing value is x01/x80/xff "
                            "(replay) or seeded random (sweep)")
     ctx.assumptions.append("constant-time execution of removePadding is not checked")
+    ctx.assumptions.append("record-layer cases: the forging sender is a bfe_tls sending half keyed by the package's own "
+                           "key schedule (overlay export); SSL 3.0 paddings of 8 bytes or more are gray")
 
 
 # ---------------------------------------------------------------------------------------- C42
@@ -266,7 +316,8 @@ def check_c42(ctx):
                        "every / a seeded sample of the distinct wires reachable with 2 actions) x (peer, version, "
                        "cipher suite, direction); each is played by a record-level man-in-the-middle on net.Pipe "
                        "between the peer and the real bfe_tls connection after an untouched handshake; judged: bytes "
-                       "delivered by Conn.Read are a prefix of the sent stream, nothing at or behind the first "
+                       "delivered by Conn.Read -- which is called 3 more times after its first error -- are a prefix of the "
+                       "sent stream, nothing comes out after the error and the error stays, nothing at or behind the first "
                        "non-authentic record is delivered, the run ends in an error that is not a clean EOF when a "
                        "non-authentic record reached the receiver. distinct = distinct (combo, wire).")
     ctx.cov["exhaustive"] = False
@@ -337,7 +388,9 @@ def check_c45(ctx):
     ctx.cov["rule"] = ("shapes = (message type x presence vector of optional fields) enumerated by TLC with the node "
                        "list in wire order and every operation (round trip; cut before / inside the tag / inside the "
                        "length / after the length / inside / one byte before the end of every node, framed and raw; "
-                       "length or count +1, max, -1, 0 on every prefixed node) and its verdict accept / reject / any; "
+                       "length or count +1, max, -1, 0 on every prefixed node; content of every prefixed node, remainder and of the "
+                       "whole body sized to 250-254, 255, 256-261, 65530-65534, 65535, 65536-65541 bytes where the "
+                       "enclosing lengths allow) and its verdict accept / reject / any; "
                        "each shape is filled with seeded contents (several variants), marshalled by the real code, "
                        "walked along the node list, and every operation is run through the real unmarshal under "
                        "recover on exact-capacity buffers, plus seeded random mutations (panic check only). "
@@ -362,6 +415,8 @@ def replay(ctx, pid, rep):
     kind = case.get("kind")
     if kind == "padding":
         pad_replay(ctx, [dict(case["case"])], "replay")
+    elif kind == "padrec":
+        pad_record(ctx, [dict(case["case"])], "replay")
     elif kind == "record":
         rec_run(ctx, [dict(case["case"])], "replay")
     elif kind == "msg":
